@@ -11,7 +11,7 @@ pristine process with non-yielding peers.
 
 from sim import env  # noqa: F401
 from sim.canon import dumps
-from sim.gen_ahb import walk
+from sim.gen_ahb import attribute_items, walk
 from sim.gen_expr import gen_invalid, gen_valid, render
 from sim.prf import PROFILES, rng
 from sim.props.ahbcommon import (
@@ -302,13 +302,16 @@ def _judge(request, outcome, reference, reasons, verdict):
     planted_nodes = {p["at"][0]: p for p in planted if p["at"][1] is None}
     planted_entries = {p["at"][0] for p in planted if p["at"][1] is not None}
     reached = 0
-    # reported items are a subsequence of the document order (nodes below forbidden parents are missing)
-    cursor = 0
-    for item, reference_item in zip(got, expected):
+    # which node an item belongs to: by position in the document order, not by name (discriminators may repeat, and
+    # the first bearer of a name may be below a forbidden parent and missing from the report)
+    positions = attribute_items(op["ahb"], got)
+    if positions is None:
+        # the report does not cover the tree the way C13 states it - that is C13's to judge, and without knowing
+        # which item is the planted node nothing can be said here
+        _bump(verdict, "report_does_not_fit_tree")
+        return
+    for item, reference_item, number in zip(got, expected, positions):
         discriminator = item["discriminator"]
-        while cursor < len(nodes) and nodes[cursor]["d"] != discriminator:
-            cursor += 1
-        number, cursor = (cursor if cursor < len(nodes) else None), cursor + 1
         kind = nodes[number]["t"] if number is not None else "?"
         result = item["validation_result"]
         if number in planted_nodes:
@@ -328,7 +331,17 @@ def _judge(request, outcome, reference, reasons, verdict):
         if number in planted_entries:
             if len(nodes[number]["pool"]) > 1:
                 reached += 1
-        if item != reference_item:
+        differs = item != reference_item
+        if differs and number in planted_entries and isinstance(result, dict):
+            # the pool that owns the invalid entry is the faulty node itself: what the statement fixes for it is that
+            # the entry is treated as selectable (offered values, status, format verdict) - its hint text may say
+            # more than the hint of the 'Kann' run (the reason, for instance)
+            other = reference_item["validation_result"]
+            differs = not isinstance(other, dict) or (
+                {k: v for k, v in result.items() if k != "hints"} != {k: v for k, v in other.items() if k != "hints"}
+                or item["discriminator"] != reference_item["discriminator"]
+            )
+        if differs:
             where = "pool-with-planted-entry" if number in planted_entries else f"other-node:{kind}"
             fail(
                 verdict,
